@@ -1,4 +1,5 @@
 pub mod engine;
+pub mod fuzzmut;
 pub mod gen;
 pub mod oracle;
 pub mod props;
